@@ -9,6 +9,7 @@ import (
 	"encoding/json"
 	"errors"
 	"fmt"
+	"io"
 	"net/http"
 	"net/http/httptest"
 	"os"
@@ -226,10 +227,25 @@ func (r *runner) http(st Step) {
 		r.mu.Unlock()
 		r.rec.Log("HTTPReqB", "h", h, "kind", kind, "method", method, "ctype", ctype, "mem", abs)
 		close(started)
-		req := httptest.NewRequest(method, "http://bridge/", strings.NewReader(body))
+		// how the body travels is not the bridge's business either: with its length declared, or - a chunked upload,
+		// any reader the HTTP client cannot measure - without (ContentLength -1)
+		var rd io.Reader = strings.NewReader(body)
+		if (len(body)+len(h))%3 == 1 {
+			rd = struct{ io.Reader }{rd}
+		}
+		req := httptest.NewRequest(method, "http://bridge/", rd)
 		req.Header.Set("Content-Type", ctype)
 		w := httptest.NewRecorder()
-		r.bridge.ServeHTTP(w, req)
+		func() {
+			defer func() { // (a real HTTP server recovers the panic and drops the connection: the caller gets no answer)
+				if p := recover(); p != nil {
+					w = httptest.NewRecorder()
+					w.Code = 599
+					w.Body.WriteString(fmt.Sprintf(`{"panic":%q}`, fmt.Sprint(p)))
+				}
+			}()
+			r.bridge.ServeHTTP(w, req)
+		}()
 		items := []any{}
 		shape := "empty"
 		b := bytes.TrimSpace(w.Body.Bytes())
